@@ -65,7 +65,7 @@ func (r *Result) ApplyBaseline(verifDir, rule, what string, perFn map[string][]u
 			for _, it := range items {
 				fmt.Fprintf(&sb, " [%s: %s]", it.Pos, it.Why)
 			}
-			r.Viol(rule, fn+"#"+what, items[0].Pos, fmt.Sprintf("%d %s not covered by a dominating guard, reviewed baseline is %d; candidates:%s", len(items), what, b[fn], sb.String()))
+			r.Viol(rule, fmt.Sprintf("%s#%s#n=%d", fn, what, len(items)), items[0].Pos, fmt.Sprintf("%d %s not covered by a dominating guard, reviewed baseline is %d; candidates:%s", len(items), what, b[fn], sb.String()))
 		} else {
 			for _, it := range items {
 				r.Undec(rule, fn+"#"+what, it.Pos, it.Why)
